@@ -242,6 +242,7 @@ func (m *mon) noteRedelivered(pm *prunedMsg, shares map[int]int64) {
 		m.rec.Count("prune_redelivered_evidence_before_and_after", 1)
 	}
 	pm.redelivered = fmt.Sprintf("before=%s/after=%s", b, a)
+	dbg("pruned re-delivered %s: before=%v (%s) after=%v (%s) stored=%v relayer=%d", mt.key, names(m, mt.before), b, names(m, mt.after), a, names(m, pm.stored), mt.relayer)
 }
 
 func names(m *mon, set map[int]bool) []string {
